@@ -7,6 +7,37 @@ namespace OmplModel.PlannerProto
 
 variable {σ δ D C : Type}
 
+theorem applyRes_idx (ltD : δ → δ → Bool) (N : Nat) :
+    ∀ (res : List (Nat × Bool × δ)) (s : Search δ),
+      (∀ i, s.solution = some i → i < N) → (∀ i, s.approxsol = some i → i < N) → (∀ r ∈ res, r.1 < N) →
+      (∀ i, (applyRes ltD s res).1.solution = some i → i < N) ∧
+      (∀ i, (applyRes ltD s res).1.approxsol = some i → i < N) := by
+  intro res
+  induction res with
+  | nil => intro s h1 h2 _; exact ⟨by simpa [applyRes] using h1, by simpa [applyRes] using h2⟩
+  | cons a r ih =>
+    intro s h1 h2 h3
+    obtain ⟨idx, sat, dist⟩ := a
+    have hi : idx < N := h3 (idx, sat, dist) List.mem_cons_self
+    cases sat with
+    | true =>
+      simp only [applyRes, if_true]
+      refine ⟨?_, h2⟩
+      intro i h
+      simp at h
+      omega
+    | false =>
+      simp only [applyRes, Bool.false_eq_true, if_false]
+      apply ih
+      · intro i h
+        have : s.solution = some i := by split at h <;> simpa using h
+        exact h1 i this
+      · intro i h
+        split at h
+        · simp at h; omega
+        · exact h2 i h
+      · intro r' hr'; exact h3 r' (List.mem_cons_of_mem _ hr')
+
 theorem loop_idx (cs : CoreSpec σ δ D C) (hl : LawfulCore cs) (ltD : δ → δ → Bool) :
     ∀ (k : Nat) (ds : List D) (c : C) (s : Search δ) (n : Nat),
       (∀ i, s.solution = some i → i < cs.size c) → (∀ i, s.approxsol = some i → i < cs.size c) →
@@ -21,39 +52,15 @@ theorem loop_idx (cs : CoreSpec σ δ D C) (hl : LawfulCore cs) (ltD : δ → δ
     cases ds with
     | nil => simpa [loop] using ⟨h1, h2⟩
     | cons d ds =>
-      cases hit : cs.iterate c n d with
-      | mk c' o =>
-        have hs := hl.size_iterate c n d c' o hit
-        cases o with
-        | none =>
-          have := ih ds c' s n (fun i h => Nat.lt_of_lt_of_le (h1 i h) hs) (fun i h => Nat.lt_of_lt_of_le (h2 i h) hs)
-          simp only [loop, hit]
-          exact ⟨this.1, this.2.1, Nat.le_trans hs this.2.2⟩
-        | some r =>
-          obtain ⟨idx, sat, dist⟩ := r
-          have hi := hl.idx_iterate c n d c' idx sat dist hit
-          cases sat with
-          | true =>
-            simp only [loop, hit, if_true]
-            refine ⟨?_, fun i h => Nat.lt_of_lt_of_le (h2 i h) hs, hs⟩
-            intro i h
-            simp at h
-            omega
-          | false =>
-            simp only [loop, hit]
-            have := ih ds c'
-              (if ltD dist s.approxdif then { s with approxsol := some idx, approxdif := dist } else s) (n + 1)
-              (by
-                intro i h
-                have : s.solution = some i := by split at h <;> simpa using h
-                exact Nat.lt_of_lt_of_le (h1 i this) hs)
-              (by
-                intro i h
-                split at h
-                · simp at h; omega
-                · exact Nat.lt_of_lt_of_le (h2 i h) hs)
-            simp only [Bool.false_eq_true, if_false]
-            exact ⟨this.1, this.2.1, Nat.le_trans hs this.2.2⟩
+      have hs := hl.size_iterate c n d
+      have A := applyRes_idx ltD (cs.size (cs.iterate c n d).core) (cs.iterate c n d).res s
+        (fun i h => Nat.lt_of_lt_of_le (h1 i h) hs) (fun i h => Nat.lt_of_lt_of_le (h2 i h) hs)
+        (fun r hr => hl.idx_iterate c n d r hr)
+      simp only [loop]
+      split
+      · exact ⟨A.1, A.2, hs⟩
+      · have := ih ds (cs.iterate c n d).core (applyRes ltD s (cs.iterate c n d).res).1 (cs.iterate c n d).next A.1 A.2
+        exact ⟨this.1, this.2.1, Nat.le_trans hs this.2.2⟩
 
 theorem finish_added (cs : CoreSpec σ δ D C) (hl : LawfulCore cs) (P : Params σ δ) (m1 : M σ δ C) (pd : Pdef σ δ)
     (e12 : List Ev) (rm xs : Nat) (r : LoopOut δ C)
@@ -122,37 +129,34 @@ theorem rrt_lawful : LawfulCore (rrtCore : CoreSpec σ δ (Draw σ δ) (Tree σ)
     intro c i s
     simp only [rrtCore, Array.toList_push, List.map_append, List.map_cons, List.map_nil]
     exact List.perm_append_comm
-  owned_iterate_some := by
-    intro c i d c' r h
-    simp only [rrtCore] at h ⊢
-    split at h
-    · simp only [Prod.mk.injEq] at h
-      rw [← h.1]
+  iterate_replay := by
+    intro c n d L X h
+    simp only [rrtCore]
+    split
+    · refine ⟨n :: L, by simp [replay, alloc_step], ?_⟩
       simp only [Array.toList_push, List.map_append, List.map_cons, List.map_nil]
-      exact List.perm_append_comm
-    · simp at h
-  owned_iterate_none := by
-    intro c i d c' h
-    simp only [rrtCore] at h ⊢
-    split at h
-    · simp at h
-    · simp only [Prod.mk.injEq] at h
-      rw [← h.1]
+      have h1 : (n :: L).Perm (n :: (List.map (fun x => x.sid) c.toList ++ X)) := h.cons n
+      refine h1.trans ?_
+      have : (List.map (fun x => x.sid) c.toList ++ [n] ++ X).Perm (n :: (List.map (fun x => x.sid) c.toList ++ X)) := by
+        have := (List.perm_append_comm (l₁ := List.map (fun x : Motion σ => x.sid) c.toList) (l₂ := [n])).append_right X
+        simp at this ⊢
+      exact this.symm
+    · exact ⟨L, by simp [replay], h⟩
   size_iterate := by
-    intro c i d c' o h
-    simp only [rrtCore] at h ⊢
-    split at h
-    · simp only [Prod.mk.injEq] at h
-      rw [← h.1]; simp
-    · simp only [Prod.mk.injEq] at h
-      rw [← h.1]; exact Nat.le_refl _
+    intro c i d
+    simp only [rrtCore]
+    split
+    · simp
+    · exact Nat.le_refl _
   idx_iterate := by
-    intro c i d c' idx sat dist h
-    simp only [rrtCore] at h ⊢
-    split at h
-    · simp only [Prod.mk.injEq, Option.some.injEq] at h
-      rw [← h.1, ← h.2.1]; simp
-    · simp at h
+    intro c i d r hr
+    simp only [rrtCore] at hr ⊢
+    split at hr
+    · simp only [List.mem_singleton] at hr
+      rename_i hv
+      simp only [hv, if_true]
+      rw [hr]; simp
+    · simp at hr
   path_nonempty := by
     intro c i h
     exact walk_ne_nil c i [] h
